@@ -11,7 +11,7 @@ Conventions
 * `StyleAlg σ` carries what full justification needs from the console's style algebra: the null style
   `""` of `Text("")`, the `Style` object `get_style_at_offset` computes from the base style and the
   covering spans (as the list of names combined, in order) and `Style.__eq__` on two such objects;
-* `WVariant` = the C05 variant flags of the `Text` model plus one flag for the defect of
+* `WVariant` = the C05 variant flags of the `Text` model, the `rstrip_end` flag (C08) and one flag for the defect of
   `Lines.justify` found by the C02 check (`true` = rich 9.10.0 as released).
 -/
 namespace RichModel
@@ -95,10 +95,15 @@ structure WVariant where
   /-- `Lines.justify` "center"/"right" call `pad_left` with a *negative* count when the line stays wider
   than the width (overflow "ignore"): the characters stay and every span moves to the left. -/
   justifyNeg : Bool
+  /-- `Text.rstrip_end` compares the *character* count of the line with the cell width (`Text.rstripEndW true`);
+  `false` = `cell_len(self.plain)` (pending_fixes/C08-rstrip-end-counts-cells.diff). -/
+  rstripChars : Bool
 deriving Repr, BEq, DecidableEq
 
-def WVariant.released : WVariant := ⟨Variant.released, true⟩
-def WVariant.repaired : WVariant := ⟨Variant.repaired, false⟩
+def WVariant.released : WVariant := ⟨Variant.released, true, true⟩
+/-- the two repairs asked for by C05/C02 in place, `rstrip_end` in either variant -/
+def WVariant.fixed (chars : Bool) : WVariant := ⟨Variant.repaired, false, chars⟩
+def WVariant.repaired : WVariant := WVariant.fixed false
 
 variable {σ : Type}
 
@@ -181,7 +186,7 @@ def wrapLine [BEq σ] (wv : WVariant) (cw : Char → Nat) (A : StyleAlg σ) (lin
     (wrapJustify : Justify) (wrapOverflow : Overflow) (noWrap : Bool) : Except PyErr (List (Text σ)) :=
   (if noWrap then .ok [line]
    else line.divide wv.text (divideLine cw line.plain width (wrapOverflow == Overflow.fold))) >>= fun newLines =>
-  justifyLines wv cw A (newLines.map (fun l => l.rstripEnd wv.text width)) width wrapJustify wrapOverflow >>= fun justified =>
+  justifyLines wv cw A (newLines.map (fun l => Text.rstripEndW wv.rstripChars cw wv.text l width)) width wrapJustify wrapOverflow >>= fun justified =>
   .ok (justified.map (fun l => l.truncate cw width (some wrapOverflow)))
 
 def wrapParagraphs [BEq σ] (wv : WVariant) (cw : Char → Nat) (A : StyleAlg σ) (width : Nat)
